@@ -521,25 +521,22 @@ def r6(ctx, retsets):
     ctx.touch(ie)
     est = pdb.enum_value("RTR_MGR_ESTABLISHED")
     for stname, stv in sorted(pdb.enum("rtr_mgr_status").items(), key=lambda kv: kv[1]):
-        went = []
-
         def values(pe, stv=stv):
             if vf.last_field(pe) == "rtr_mgr_group.status":
                 return stv
+            if vf.last_field(pe) == "tommy_node_struct.next":
+                return 0        # a list of one group
             return None
 
         def classify_e(inst, E, st):
             if inst.op == "call" and inst.callee == "tommy_list_head":
                 return [([], {inst.ref: ("nin", frozenset([0]))})]
-            if inst.op == "load" and vf.last_field(vf.expr(ie, inst["ptr"])) == "tommy_node_struct.next":
-                went.append(1)
-                return flow.KILL
             return None
         outs_e, _f = es.count_effects(ie, pdb, classify_e, None, values=values)
         rets = {flow.av_single(o["ret"]) for o in outs_e}
-        good = (rets == {1} and not went) if stv == est else (not rets and bool(went))
+        good = rets == ({1} if stv == est else {0})
         ctx.check(good, "C15.R6", "some-group-established[status %s]" % stname[8:], "%s:%d" % (ie.relfile, ie.line),
-                  "a group in this status: returns %s, goes on to the next group: %s" % (sorted(rets, key=str), bool(went)), key="C15.R6:some-est:%s" % stname)
+                  "with one group in this status the answer is %s" % sorted(rets, key=str), key="C15.R6:some-est:%s" % stname)
     gb = pdb.fn("get_best_inactive_rtr_mgr_group")
     ctx.touch(gb)
     closed = pdb.enum_value("RTR_MGR_CLOSED")
